@@ -224,7 +224,7 @@ def assert_tree():
 
 
 def write_replay(prop, v):
-    d = os.path.join(VERIF_DIR, "replays")
+    d = os.environ.get("VERIF_REPLAY_DIR") or os.path.join(VERIF_DIR, "replays")
     os.makedirs(d, exist_ok=True)
     h = case_hash(v["case"])[:12]
     path = os.path.join(d, f"{prop}-{h}.json")
@@ -345,7 +345,7 @@ def run_check(mod, prop, tier, seed, shards=None, scale=1.0, opts=None):
         "tools": tool_versions(),
         "inconclusive": [r["inconclusive"] for r in inconclusive],
     }
-    edir = os.path.join(VERIF_DIR, "evidence")
+    edir = os.environ.get("VERIF_EVIDENCE_DIR") or os.path.join(VERIF_DIR, "evidence")
     os.makedirs(edir, exist_ok=True)
     with open(os.path.join(edir, f"{prop}.json"), "w") as f:
         json.dump(evidence, f, indent=1, sort_keys=True)
